@@ -16,7 +16,12 @@ for d in sorted(glob.glob(V + '/seeded/*/')):
         for l in open(d + 'detect.txt'):
             m = re.match(r'\S+ (C\d+) (DETECTED|missed)', l)
             if m: (det if m.group(2) == 'DETECTED' else miss).append(m.group(1))
-    rows.append((sid, (meta.get('summary') or '').replace('\n', ' ')[:140], 'detected by ' + ', '.join(det) + ('; missed by ' + ', '.join(miss) if miss else '')))
+    verdict = 'detected by ' + ', '.join(det) + ('; missed by ' + ', '.join(miss) if miss else '')
+    if not det:
+        verdict = 'not detected (' + ', '.join(miss) + ')'
+    if os.path.exists(d + 'NOT_DETECTED'):
+        verdict += ' - outside the domain: ' + open(d + 'NOT_DETECTED').read().strip()[:160]
+    rows.append((sid, (meta.get('summary') or '').replace('\n', ' ')[:140], verdict))
 with open(V + '/seeded/TABLE.md', 'w') as f:
     f.write('| seeded change | what it does | quick checks |\n|---|---|---|\n')
     for r in rows:
